@@ -198,6 +198,9 @@ class Canon:
             # s.split(sep, n)[0] with n >= 1 is s.split(sep)[0]
             if idx == ('num', 0) and base[0] == 'call' and base[1][0] == 'attr' and base[1][2] == 'split' and len(base[2]) == 2 and not base[3] and base[2][1][0] == 'num' and isinstance(base[2][1][1], int) and base[2][1][1] >= 1:
                 base = ('call', ('attr', base[1][1], 'split'), (base[2][0],), ())
+            # (a, b, c)[1] is b
+            if base[0] in ('tuple', 'list') and idx[0] == 'num' and isinstance(idx[1], int) and 0 <= idx[1] < len(base) - 1:
+                return base[1 + idx[1]]
             if base[0] == 'attr' and base[2] == 'shape' and idx == ('num', 0):
                 return ('call', ('name', 'len'), (base[1],), ())          # x.shape[0] is len(x)
             return ('sub', base, idx)
@@ -222,8 +225,13 @@ class Canon:
             for v in e.values:
                 if isinstance(v, ast.Constant):
                     parts.append(('str', v.value))
+                elif v.conversion != -1 or v.format_spec is not None:
+                    parts.append(('fmt', self._t(v.value), v.conversion, ast.unparse(v.format_spec) if v.format_spec is not None else ''))
                 else:
                     parts.append(('fmt', self._t(v.value)))
+            # an f-string whose fields are plain `{x}` is the concatenation of its pieces (a field of a concatenation is a string already)
+            if len(parts) >= 2 and all(len(p_) == 2 for p_ in parts):
+                return self._add([p_ if p_[0] == 'str' else p_[1] for p_ in parts] if any(p_[0] == 'str' for p_ in parts) else [('fstr', tuple(parts))])
             return ('fstr', tuple(parts))
         if isinstance(e, ast.Lambda):
             names = [a.arg for a in e.args.args]
@@ -469,6 +477,8 @@ class Canon:
         if any(self._sequence_like(p) for p in parts):
             seq = []
             for p in parts:
+                if p[0] == 'call' and p[1] == ('name', 'str') and len(p[2]) == 1 and not p[3] and p[2][0][0] not in ('num', 'bool', 'none'):
+                    p = p[2][0]          # 'a' + str(x): x is a string wherever the same text is written 'a' + x
                 if p[0] == 'concat':
                     seq.extend(p[1])
                 elif p[0] == '+' and False:
